@@ -883,6 +883,51 @@ def rule_A10(ctx) -> None:
         ctx.proved("A10", "_flush_queue:sentinels-cover-stranded-receivers", mod.loc(fn), f"{n} (waiting, buffered) states")
 
 
+def rule_G12(ctx, rule: str = "G12") -> None:
+    """the request source is consumed with the loop its protocol needs: `async for` for everything that is an AsyncIterable
+    (declared in MessageSource), `for` for the rest.  The branch is chosen by an isinstance test against the *widest* class the
+    declaration names - a test against the narrower AsyncIterator / AsyncGenerator sends a re-iterable source (only __aiter__)
+    into the synchronous loop, where it raises TypeError (or, in a background task, hangs the call)"""
+    mod = ctx.repo.mod(M_CLIENT)
+    fn = mod.func("ServiceStub._send_messages")
+    ctx.analysed("ServiceStub._send_messages")
+    src_param = fn.args.args[-1].arg
+    ok_wide = {"AsyncIterable"}
+    loops = [n for n in ast.walk(fn) if isinstance(n, ast.AsyncFor) and isinstance(n.iter, ast.Name) and n.iter.id == src_param]
+    name = "_send_messages:async-sources-by-AsyncIterable"
+    if not loops:
+        ctx.inconclusive(rule, name, f"no `async for .. in {src_param}` loop", mod.loc(fn))
+        return
+    tests = []
+    for iff in ast.walk(fn):
+        if isinstance(iff, ast.If) and any(lp in list(ast.walk(b)) for lp in loops for b in iff.body):
+            tests.append((iff.test, True))
+        elif isinstance(iff, ast.If) and any(lp in list(ast.walk(b)) for lp in loops for b in iff.orelse):
+            tests.append((iff.test, False))
+    ctx.count(len(tests))
+    bad = None
+    recognised = 0
+    for t, pos in tests:
+        if isinstance(t, ast.Call) and isinstance(t.func, ast.Name) and t.func.id == "isinstance" and len(t.args) == 2 and isinstance(t.args[0], ast.Name) and t.args[0].id == src_param and pos:
+            classes = [ast.unparse(c).split(".")[-1] for c in (t.args[1].elts if isinstance(t.args[1], ast.Tuple) else [t.args[1]])]
+            recognised += 1
+            if not set(classes) & ok_wide:
+                bad = (t, classes)
+        elif isinstance(t, ast.Call) and isinstance(t.func, ast.Name) and t.func.id == "hasattr" and len(t.args) == 2 and isinstance(t.args[1], ast.Constant) and pos:
+            recognised += 1
+            if t.args[1].value != "__aiter__":
+                bad = (t, [str(t.args[1].value)])
+    if bad:
+        t, classes = bad
+        ctx.refuted(rule, name, ",".join(classes), mod.loc(t), f"the asynchronous loop is taken only for `{ast.unparse(t)}`: {classes} is narrower than AsyncIterable, which MessageSource admits - an object "
+                    "that defines __aiter__ but is not its own iterator (a re-iterable request source) falls into the synchronous `for` and the call fails with TypeError / never completes",
+                    "class Outbox: __aiter__ returns a fresh async generator;  await stub.client_streaming_rpc(Outbox())")
+    elif not recognised:
+        ctx.inconclusive(rule, name, "the test that selects the asynchronous loop is not an isinstance / hasattr test on the source", mod.loc(fn))
+    else:
+        ctx.proved(rule, name, mod.loc(fn), f"{recognised} selecting tests, each against AsyncIterable / __aiter__")
+
+
 def rule_G6(ctx, rule: str = "G6") -> None:
     """request termination in the client helpers"""
     mod = ctx.repo.mod(M_CLIENT)
